@@ -16,6 +16,7 @@
 #if defined(CNL_IOSTREAMS_ENABLED)
 #include <ostream>
 #endif
+#include <type_traits>
 
 /// compositional numeric library
 namespace cnl {
@@ -24,7 +25,13 @@ namespace cnl {
         template<int Digits, typename Narrowest>
         auto& operator<<(std::ostream& out, wide_integer<Digits, Narrowest> const& value)
         {
-            return out << to_rep(value);
+            using rep = rep_of_t<wide_integer<Digits, Narrowest>>;
+            if constexpr (std::is_integral_v<rep> && sizeof(rep) == 1) {
+                // a character type used as a number: print the numeral, not the character
+                return out << static_cast<int>(to_rep(value));
+            } else {
+                return out << to_rep(value);
+            }
         }
 #endif
     }
